@@ -64,6 +64,10 @@ static void checkAgainst(NifFile& nif, NiShape* s, const GeoModel& m, Ctx& ctx, 
 		std::vector<float> f;
 		for (auto& e : v) { f.push_back(e.u); f.push_back(e.v); }
 		cmpAttr1(ctx, where, "uvs", m.uv, ok ? &f : nullptr, v.size(), m.nv);
+		auto pu = nif.GetUvsForShape(s); // pointer form
+		std::vector<float> fp;
+		if (pu) for (auto& e : *pu) { fp.push_back(e.u); fp.push_back(e.v); }
+		cmpAttr1(ctx, where, "uvs(ptr)", m.uv, pu && !pu->empty() ? &fp : nullptr, pu ? pu->size() : 0, m.nv);
 	}
 	{
 		auto pn = nif.GetNormalsForShape(s);
@@ -78,6 +82,13 @@ static void checkAgainst(NifFile& nif, NiShape* s, const GeoModel& m, Ctx& ctx, 
 		ok = nif.GetBitangentsForShape(s, v);
 		f = flat3(v);
 		cmpAttr1(ctx, where, "bitangents", m.bit, ok ? &f : nullptr, v.size(), m.nv);
+		// pointer forms (they go through cached raw copies for BSTriShape)
+		auto pt = nif.GetTangentsForShape(s);
+		std::vector<float> ft = pt ? flat3(*pt) : std::vector<float>();
+		cmpAttr1(ctx, where, "tangents(ptr)", m.tan, pt && !pt->empty() ? &ft : nullptr, pt ? pt->size() : 0, m.nv);
+		auto pb = nif.GetBitangentsForShape(s);
+		std::vector<float> fb = pb ? flat3(*pb) : std::vector<float>();
+		cmpAttr1(ctx, where, "bitangents(ptr)", m.bit, pb && !pb->empty() ? &fb : nullptr, pb ? pb->size() : 0, m.nv);
 	}
 	{
 		std::vector<Color4> v;
@@ -85,11 +96,17 @@ static void checkAgainst(NifFile& nif, NiShape* s, const GeoModel& m, Ctx& ctx, 
 		std::vector<float> f;
 		for (auto& e : v) { f.push_back(e.r); f.push_back(e.g); f.push_back(e.b); f.push_back(e.a); }
 		cmpAttr1(ctx, where, "colors", m.col, ok ? &f : nullptr, v.size(), m.nv);
+		auto pc = nif.GetColorsForShape(s);
+		std::vector<float> fc;
+		if (pc) for (auto& e : *pc) { fc.push_back(e.r); fc.push_back(e.g); fc.push_back(e.b); fc.push_back(e.a); }
+		cmpAttr1(ctx, where, "colors(ptr)", m.col, pc && !pc->empty() ? &fc : nullptr, pc ? pc->size() : 0, m.nv);
 	}
 	{
 		std::vector<float> v;
 		bool ok = NifFile::GetEyeDataForShape(s, v);
 		cmpAttr1(ctx, where, "eyedata", m.eye, ok ? &v : nullptr, v.size(), m.nv);
+		auto pe = nif.GetEyeDataForShape(s);
+		cmpAttr1(ctx, where, "eyedata(ptr)", m.eye, pe && !pe->empty() ? pe : nullptr, pe ? pe->size() : 0, m.nv);
 	}
 	std::vector<Triangle> t;
 	s->GetTriangles(t);
